@@ -19,6 +19,9 @@ TERMINAL = {
     "F": [["finish"]],
     "LF": [["log", "INFO", "bye", None], ["finish"]],
     "R": [["raise", "RuntimeError", "boom"]],
+    # a step that returns without emit()/finish(): the FRAMEWORK raises after process() returned (logs still precede it)
+    "L0": [["log", "WARN", "lonely", {"q": "r"}]],
+    "LL0": [["log", "INFO", "i0", None], ["log", "ERROR", "e0", None]],
 }
 
 
@@ -59,6 +62,7 @@ EX_STEPS = {
     "X": [["echo", 2, None]],
     "LX": [["log", "INFO", "x-log", None], ["echo", 3, {"em": "ev"}]],
     "R": [["raise", "ValueError", "xboom"]],
+    "L0": [["log", "WARN", "x-lonely", {"q": "r"}]],  # no output for this input: framework error after the log
 }
 
 
@@ -66,7 +70,7 @@ def exchange_calls(maxlen: int) -> list[Call]:
     calls = []
     for n in range(1, maxlen + 1):
         for seq in itertools.product(EX_STEPS, repeat=n):
-            if "R" in seq[:-1]:
+            if "R" in seq[:-1] or "L0" in seq[:-1]:
                 continue
             for hdr in (False, True):
                 sc: dict[str, Any] = {"steps": [list(map(list, EX_STEPS[s])) for s in seq]}
